@@ -323,7 +323,7 @@ def main():
                     addrs.append((fam, int(tok[3:], 16)))
             cases.append({"subnets": subs, "addrs": addrs})
     cases += FIXED_FILTER
-    n_cases = 400 if quick else 12000
+    n_cases = 400 if quick else 6000
     for k in range(n_cases):
         cases.append(gen_filter_case(rng, rng.choice([3, 6, 12, 30]) if k % 10 else 60))
 
@@ -387,7 +387,7 @@ def main():
             t = line.split()
             if t and t[0] == "P":
                 pcases.append({"s": bytes.fromhex(t[1] if t[1] != "-" else "").decode()})
-    pcases += gen_parse_cases(rng, 600 if quick else 20000)
+    pcases += gen_parse_cases(rng, 600 if quick else 10000)
 
     def parse_line(case):
         b = case["s"].encode()
